@@ -10,6 +10,9 @@
      C <sre> | s | spans        ->  check_spans as 0/1
      G <sre> | s1 | s2 ...      ->  "<has_nongreedy><left_anchored>" then for each string the spans regexp-fold hands to
                                     kons: "i-j,i-j" or "_" (none), "!" = out of fuel
+     A s1 | s2 ...              ->  for each string, for every position 0..len, the 7 values of anchor_ok
+                                    (bos eos bol eol bow eow nwb) as 0/1, positions separated by ","
+     X from to                  ->  expand_reps: c/C = copy without/with submatches, o/O = optional copy, S = star; to = number or i
      F HEX -> fold, W HEX -> is_word *)
 open Model
 open Common
@@ -109,6 +112,18 @@ let handle fields =
                     | Some l -> String.concat "," (List.map (fun (i, j) ->
                           string_of_int (int_of_nat i) ^ "-" ^ string_of_int (int_of_nat j)) l)) strs)
          | [] -> "ERR empty")
+    | "A" :: rest ->
+        String.concat " "
+          (List.map (fun f ->
+               let s = str_of f in
+               let rec go p l acc =
+                 let n = match l with [] -> None | c :: _ -> Some c in
+                 let bits = String.concat "" (List.map (fun k -> b2s (anchor_ok k p n)) [Bos; Eos; Bol; Eol; Bow; Eow; Nwb]) in
+                 match l with
+                 | [] -> List.rev (bits :: acc)
+                 | c :: l' -> go (Some c) l' (bits :: acc) in
+               String.concat "," (go None s []))
+             (split_bar [] [] rest))
     | "C" :: rest ->
         (match split_bar [] [] rest with
          | [sre; s; sp] ->
@@ -116,6 +131,12 @@ let handle fields =
              if left <> [] then "ERR trailing sre tokens" else
              b2s (check_spans r (str_of s) (spans_of sp))
          | _ -> "ERR fields")
+    | ["X"; a; b] ->
+        let t = if b = "i" then None else Some (nat_of_int (int_of_string b)) in
+        let l = expand_reps (nat_of_int (int_of_string a)) t in
+        if l = [] then "_" else
+        String.concat "" (List.map (function
+            | RCopy true -> "C" | RCopy false -> "c" | ROptc true -> "O" | ROptc false -> "o" | RStarc -> "S") l)
     | ["F"; h] -> hex_of_n (fold (n_of_hex h))
     | ["W"; h] -> b2s (is_word (n_of_hex h))
     | f -> "ERR unknown request " ^ String.concat " " f
